@@ -1,6 +1,148 @@
-"""Positive / negative fixtures analysed on every run (a rule whose expected count on /repo is zero must still be shown to fire)."""
+"""Positive / negative fixtures analysed by `python -m vstatic selfcheck` (MANIFEST.setup_cmd):
+small programs on which each engine must give a known answer, so that a rule whose expected
+count on /repo is zero cannot pass vacuously because its engine went blind."""
+
+from __future__ import annotations
+
+import ast
+import os
+import shutil
+import sys
+import tempfile
+import textwrap
+
+
+def _pkg(files):
+    d = tempfile.mkdtemp(prefix="vstatic_fixture_")
+    os.makedirs(os.path.join(d, "valida"))
+    for name, src in files.items():
+        with open(os.path.join(d, "valida", name), "w") as fh:
+            fh.write(textwrap.dedent(src))
+    return d
+
+
+FIX_MOD = """
+    import copy
+
+    CACHE = {}
+
+    class Box:
+        def __init__(self, items):
+            self.items = items
+
+        def read(self, doc):
+            try:
+                return doc["k"] < 3
+            except TypeError:
+                return False
+
+        def read_unguarded(self, doc):
+            return doc["k"] < 3
+
+        def mutate_arg(self, doc):
+            doc["seen"] = True
+
+        def mutate_copy(self, doc):
+            d = copy.deepcopy(doc)
+            d["seen"] = True
+            return d
+
+        def shallow(self, doc):
+            d = dict(doc)
+            d["inner"]["x"] = 1
+
+        def remember(self, doc):
+            CACHE["last"] = doc
+
+        def lazy(self):
+            try:
+                return self._memo
+            except AttributeError:
+                self._memo = 1
+                return self._memo
+"""
 
 
 def run_fixtures():
-    print("selfcheck: no fixtures registered yet")
+    from .aval import AVal, json_node, mk
+    from .finite import ConstEval, allowed_sets
+    from .interp import Interp
+    from .program import Program
+    from .rules.astutil import facts_at
+    from .rules.html import balance, tokens
+    from .rules.shape import canon, count_appends
+
+    failures = []
+
+    def check(name, cond):
+        if not cond:
+            failures.append(name)
+
+    d = _pkg({"__init__.py": "", "fix.py": FIX_MOD})
+    try:
+        prog = Program(d)
+        box = mk("inst:fix.Box", org=frozenset({("self", 0)}))
+        doc = json_node("doc", 0)
+
+        def run(meth, **args):
+            it = Interp(prog, {}, {})
+            s = it.run(prog.func(f"fix.Box.{meth}"), {"self": box, **args})
+            return it, s
+
+        it, s = run("read", doc=doc)
+        check("E3: guarded subscript/compare on an input node raises nothing tainted but KeyError/IndexError", {k[0] for k, v in s.raises.items() if v[1]} == {"KeyError"})
+        it, s = run("read_unguarded", doc=doc)
+        check("E3: unguarded `doc['k'] < 3` may raise TypeError and KeyError", {"TypeError", "KeyError"} <= {k[0] for k, v in s.raises.items() if v[1]})
+        it, s = run("mutate_arg", doc=doc)
+        check("E4: store into an argument is a mutation of a protected origin", any(e.kind == "mut" and ["doc", 0] in [list(o) for o in e.detail["org"]] for e in it.events.values()))
+        it, s = run("mutate_copy", doc=doc)
+        check("E4: store into a deepcopy is not a mutation of the argument", not any(e.kind == "mut" and e.detail["org"] for e in it.events.values()))
+        it, s = run("shallow", doc=doc)
+        check("E4: store below a shallow copy reaches the argument", any(e.kind == "mut" and any(o[0] == "doc" for o in e.detail["org"]) for e in it.events.values()))
+        it, s = run("remember", doc=doc)
+        check("E4: store into module-level state has origin `global`", any(e.kind == "mut" and any(o[0] == "global" for o in e.detail["org"]) for e in it.events.values()))
+        it, s = run("lazy")
+        check("E4: lazily created field is stored on self (handler path analysed)", any(e.kind == "mut" and e.detail.get("attr") == "_memo" for e in it.events.values()))
+    finally:
+        shutil.rmtree(d, ignore_errors=True)
+
+    # E6: canonical forms and counting
+    e = lambda s: ast.parse(s, mode="eval").body
+    check("E6: `not a >= b` normalises to `a < b`", canon(e("not X >= value")) == "X < value")
+    check("E6: `value > X` is oriented to `X < value`", canon(e("value > X")) == "X < value")
+    check("E6: comprehension variables are renamed positionally", canon(e("[i for idx, i in enumerate(xs) if r[idx]]")) == canon(e("[v for k, v in enumerate(xs) if r[k]]")))
+    body = ast.parse("if a:\n    out.append(1)\nelse:\n    out.append(2)\ntry:\n    f()\nexcept E:\n    out.append(3)\n").body
+    lo, hi, _ = count_appends(body, "out")
+    check("append counting: (1, 2) for if/else + handler", (lo, hi) == (1, 2))
+    st, err = balance(tokens('<div class="a"><span>x</span></div>'))
+    check("tag balance: balanced fragment", err is None and st == [])
+    st, err = balance(tokens('<div><span>x</div>'))
+    check("tag balance: mis-nested fragment is reported", err is not None)
+
+    # facts_at with early exits
+    d = _pkg({"__init__.py": "", "g.py": "def f(p):\n    if not (p.a and p.b):\n        raise ValueError\n    if p.c is not None:\n        raise ValueError\n    return {'type': 1}\n"})
+    try:
+        prog = Program(d)
+        fn = prog.func("g.f")
+        node = next(n for n in ast.walk(fn.node) if isinstance(n, ast.Dict))
+        facts = facts_at(prog, fn, node, canon)
+        check("dominating facts through early exits", {"p.a", "p.b", "p.c is None"} <= facts)
+        # allowed-set dataflow
+    finally:
+        shutil.rmtree(d, ignore_errors=True)
+    d = _pkg({"__init__.py": "", "h.py": "def f(obj, name):\n    T = {'a': 'x', 'b': 'y'}\n    if name not in T:\n        raise ValueError\n    name = T[name]\n    return getattr(obj, name)\n\ndef g(obj, name):\n    T = {'a': 'x'}\n    name = T.get(name, name)\n    return getattr(obj, name)\n"})
+    try:
+        prog = Program(d)
+        a = list(allowed_sets(prog, prog.func("h.f")).values())
+        b = list(allowed_sets(prog, prog.func("h.g")).values())
+        check("R-REFLECT engine: whitelisted getattr has a finite name set", a and a[0][1] == {"x", "y"})
+        check("R-REFLECT engine: pass-through default is not a whitelist", b and b[0][1] is None)
+    finally:
+        shutil.rmtree(d, ignore_errors=True)
+
+    if failures:
+        for f in failures:
+            print("FIXTURE FAILED:", f)
+        return 1
+    print("selfcheck: 18 engine fixtures ok")
     return 0
